@@ -161,11 +161,19 @@ fn base_header(rng: &mut Rng, page: u16, stop: u8, orbit: u32, trg: u32, fee: u1
 /// a conforming RDH sequence of one link that starts with pages 0 and 1
 fn conforming(rng: &mut Rng, n: usize) -> Vec<[u8; 64]> {
     let mut v = Vec::new();
-    let mut orbit = rng.next() as u32 / 2;
+    // extremes: a link that starts just below the 32-bit roll-over (so that it passes through / lands on orbit 0) or whose first HBF is at orbit 0
+    let mut orbit = match rng.below(8) {
+        0 => 0u32.wrapping_sub(1 + rng.below(4) as u32),
+        1 => 0u32.wrapping_sub(1),
+        _ => rng.next() as u32 / 2,
+    };
+    let mut first = true;
+    let start_zero = rng.chance(1, 16);
     let version = *rng.pick(&[6u8, 7]);
     let fee = (((rng.below(7) as u16) << 12) | ((rng.below(3) as u16) << 8) | rng.below(48) as u16) as u16;
     while v.len() < n {
-        orbit = orbit.wrapping_add(1 + rng.below(3) as u32);
+        orbit = if first && start_zero { 0 } else if orbit == u32::MAX { 0 } else { orbit.wrapping_add(1 + rng.below(3) as u32) };
+        first = false;
         let npages = if v.is_empty() { 1 + rng.below(4) } else { rng.below(5) } as u16 + 1;
         let trg = (0x3 | (rng.below(0x2000) as u32) << 1 | (rng.below(32) as u32) << 27) & !0x07FF_8000 | 1;
         let det = (rng.below(4096) as u32) | ((rng.below(256) as u32) << 24);
